@@ -90,7 +90,7 @@ class Violation:
     def __init__(self, prop, rule, key, msg, where, detail=None):
         self.prop = prop
         self.rule = rule
-        self.key = "%s|%s" % (rule, key)
+        self.key = ("%s|%s" % (rule, key)).replace(" ", "_")
         self.msg = msg
         self.where = where
         self.detail = detail or {}
